@@ -8,6 +8,16 @@ TRUST = ["Eigen dense self-adjoint eigen-solver, LU and MatrixFunctions::exp use
          "held on the executions observed only; nothing is claimed for inputs/schedules that were not run"]
 
 VH = {
+    "C10": dict(drivers=[dict(driver="fieldop", flavours=P2, timeout=60)],
+                floor=dict(quick=40, thorough=400),
+                rule="cases = generated model x partition (default/ignored/custom integer-linear) x {real,complex}; for every index: c, c+ computed one by one and through FieldOperatorContainer, "
+                     "c+_i c_j for all/sampled pairs; monitors: stored blocks (row- and column-major copies) rotated back with the stored eigenvectors == Jordan-Wigner matrix, stored c == adjoint of stored c+ "
+                     "(assembled and per part), block maps transposed, {c_i,c+_j}=delta_ij, {c_i,c_j}=0 assembled over all blocks; non-trivial = dim>=4 and H not diagonal; distinct by model+partition"),
+    "C09": dict(drivers=[dict(driver="dm", flavours=P2, timeout=30)],
+                floor=dict(quick=60, thorough=600),
+                rule="cases = generated model x partition (default/ignored/custom) x beta log-uniform in [1e-3,1e3] x stress class (none / uniform offset +-1e3..1e6 / bandwidth x10..1e3); "
+                     "monitors: weights finite, >=0, sum to 1, pairwise Boltzmann ratios, weights vs independent log-sum-exp Gibbs state, <E>, <N>, <n_i>, <n_i n_j>, <c+_i c_j> vs full-space traces; "
+                     "non-trivial = dim>=4 and non-zero bandwidth; distinct by model+partition+stress"),
     "C07": dict(drivers=[dict(driver="symm", flavours=P2, timeout=30)],
                 floor=dict(quick=60, thorough=600),
                 rule="cases = generated lattice (heterogeneous spin/orbital counts, spinless sites, 3-spin sites) x Hamiltonian (with/without N, S_z conservation) x analysis mode "
@@ -31,6 +41,14 @@ HOOK_COMMITS = []
 NOT_YET = {}
 
 INFO = {
+    "C10": dict(technique="runtime oracle monitor: stored eigenbasis operator blocks rotated back with the stored eigenvectors vs Jordan-Wigner matrices; CAR assembled over blocks",
+                level_text="Every stored block of c, c+ and c+c (both sparse copies, both construction routes) is transformed back to Fock space and compared with the independent Jordan-Wigner matrix, on generated models with degenerate spectra and several partitions, real and complex; held on what was run.",
+                level_note="Uses the library's own eigenvectors for the rotation (their correctness is C03's subject); N <= 5 quick / 7 thorough.",
+                design_ref="DESIGN.md section 3, C10"),
+    "C09": dict(technique="runtime oracle monitor: DensityMatrix / EnsembleAverage vs independent full-space Gibbs state (log-sum-exp) incl. overflow/underflow stress",
+                level_text="Weights and every average returned by the real library are compared with traces over an independent full-space ED for beta in [1e-3,1e3], bandwidths up to beta*W ~ 1e6 and offsets up to 1e6; held on what was run.",
+                level_note="Trusts Eigen's eigen-solver; N <= 6 quick / 8 thorough; tolerances scale with beta*|E|max*1e-12 (eigenvalue agreement of two solvers).",
+                design_ref="DESIGN.md section 3, C09"),
     "C07": dict(technique="runtime invariant monitor over StatesClassification / FieldOperator block maps vs independently computed Jordan-Wigner images, on generated lattices and hostile integral-of-motion candidates",
                 level_text="The partition produced by the real symmetry analysis is checked state by state (coverage, round trip, block-diagonality of H, single-target of every elementary operator, block maps) against images computed independently, for default/ignored/custom analyses incl. candidates that must be rejected; held on what was run.",
                 level_note="Hash collisions between different quantum-number vectors cannot be found by running; N <= 6 quick / 8 thorough.",
